@@ -9,6 +9,7 @@ which only the function it needs was created ("the same call in a fresh
 process").  In-run oracles watch PyYAML's registries, the user's classes and the
 shared value objects.
 """
+import builtins
 import collections
 import gc
 import io
@@ -17,6 +18,7 @@ import pathlib
 import shutil
 import sys
 import tempfile
+import threading
 import types
 import warnings
 
@@ -186,6 +188,31 @@ def deep_fingerprint():
         f = getattr(yaml, name, None)
         mod.append([name, _callable_name(f), getattr(getattr(f, '__code__', None), 'co_firstlineno', None)])
     fp['yaml.module'] = canon.short(mod)
+    # every class the yaml package defines (nodes, events, tokens, marks, errors, the
+    # pipeline stages): attribute names, and methods by source position
+    for mname in sorted(m for m in sys.modules if m == 'yaml' or m.startswith('yaml.')):
+        m = sys.modules.get(mname)
+        if m is None:
+            continue
+        items = []
+        for cname, cls in sorted(vars(m).items()):
+            if not isinstance(cls, type) or getattr(cls, '__module__', None) != mname:
+                continue
+            for name, v in vars(cls).items():
+                if name in _REGS:
+                    continue
+                f = getattr(v, '__func__', v)
+                code = getattr(f, '__code__', None)
+                if code is None and name.startswith('__'):
+                    continue    # (__doc__, __dict__, copyreg's __slotnames__ cache, ...)
+                items.append([cname, name, None if code is None else
+                              [os.path.basename(code.co_filename), code.co_firstlineno]])
+            items.append([cname, '<bases>', [b.__qualname__ for b in cls.__bases__]])
+        items.sort(key=repr)
+        fp['classes of ' + mname] = canon.short(items)
+    fp['yaml modules'] = canon.short(sorted(
+        [mname, sorted(k for k in vars(sys.modules[mname]) if not k.startswith('__'))]
+        for mname in sys.modules if (mname == 'yaml' or mname.startswith('yaml.')) and sys.modules[mname] is not None))
     return fp
 
 
@@ -198,7 +225,11 @@ def process_globals():
     mask = os.umask(0o022)
     os.umask(mask)
     import warnings
-    return [sys.getrecursionlimit(), repr(sys.getswitchinterval()), os.getcwd(), mask,
+    # (only settings that change what a later load or dump RETURNS or WRITES belong here:
+    # logging configuration, gc settings, sys.path and the like are not promised by C11)
+    extra = [_callable_name(io.open), _callable_name(builtins.open),
+             repr(sys.get_int_max_str_digits()), repr(warnings.defaultaction)]
+    return extra + [sys.getrecursionlimit(), repr(sys.getswitchinterval()), os.getcwd(), mask,
             repr(locale.getlocale()), sys.getdefaultencoding(), sys.getfilesystemencoding(),
             # the warning filters decide whether a user class that warns raises instead
             repr([(f[0], getattr(f[2], '__name__', f[2]), f[4]) for f in warnings.filters])]
@@ -384,7 +415,16 @@ def class_snapshot(cls):
         if isinstance(v, (dict, list, set, tuple, str, int, float, bool, type(None))):
             out.append((k, id(v), canon.short(canon.canon(v))))
         else:
-            out.append((k, id(v), None))
+            f = getattr(v, '__func__', v)
+            if isinstance(f, types.FunctionType):
+                # what introspection (and yatiml itself) reads from a method: annotations,
+                # defaults, attributes set on the function, the code object
+                out.append((k, id(v), canon.short([
+                    repr(sorted((a, repr(b)) for a, b in (f.__annotations__ or {}).items())),
+                    repr(f.__defaults__), repr(f.__kwdefaults__), repr(sorted(vars(f))),
+                    id(f.__code__), repr(f.__doc__), f.__name__, f.__qualname__])))
+            else:
+                out.append((k, id(v), None))
     out.sort(key=lambda x: x[0])
     return out
 
